@@ -33,7 +33,7 @@ ASSUMPTIONS = [
     "IA32 integers are limited to 32 bits",
 ]
 BUDGET = {"quick": (5000, 45), "thorough": (150000, 500)}
-REQUIRED_COUNTERS = ["calls_reached", "argument_checks",
+REQUIRED_COUNTERS = ["calls_reached", "argument_checks", "context_call_sites",
                      "instructions_executed"]
 
 ABIS = ["x64-elf", "x64-pe", "ia32-pe", "arm64-elf"]
@@ -61,6 +61,13 @@ def gen_int(rng, bits):
 
 
 def gen_case(rng, tier, index):
+    if index % 10 == 9:
+        # one patch object, two sites of one block, through RewritingContext
+        return {"kind": "ctx", "abi": rng.choice(["x64-elf", "x64-pe",
+                                                  "arm64-elf"]),
+                "base": rng.randrange(0x100, 0x7000),
+                "nconst": rng.randrange(0, 3),
+                "seed": rng.randrange(1 << 30)}
     abi = rng.choice(ABIS)
     bits = 32 if abi == "ia32-pe" else 64
     nargs = rng.choice([0, 1, 2, 3, 4, 6, 7, 9, 11, 16])
@@ -126,7 +133,135 @@ def make_module(abi_name):
     return m, code, syms
 
 
+def run_ctx(c):
+    """the same CallPatch object inserted at two boundaries of one block in
+    one RewritingContext: both sequences are complete (arguments, call,
+    epilogue) and the callable argument is evaluated for each site"""
+    import gtirb_functions
+    from gtirb_rewriting import RewritingContext
+    from gtirb_rewriting.patches import CallPatch
+    from .. import irbuild
+    viol = []
+    ctr = {"context_call_sites": 0, "instructions_executed": 0}
+    abi_name = c["abi"]
+    isa, isa_g, fmt = c16.ABIS[abi_name]
+
+    def blk(i, labels, items):
+        return {"id": i, "code": True, "labels": labels, "elabels": [],
+                "items": items}
+    blocks = [blk(0, ["f"], [{"k": "nop"}, {"k": "nop"}]),
+              blk(1, ["f1"], [{"k": "ret"}]),
+              blk(9, ["g"], [{"k": "ret"}])]
+    case = {"isa": isa, "fmt": "elf" if fmt == gtirb.Module.FileFormat.ELF
+            else "pe", "pie": False, "externs": [], "entry": None,
+            "edits": [], "funcs": [
+                {"name": "f", "blocks": [0, 1], "entries": [0]},
+                {"name": "g", "blocks": [9], "entries": [9]}],
+            "secs": [{"name": ".text", "exec": True,
+                      "ivs": [{"gap": 0, "blocks": blocks}]}]}
+    bu, lst = irbuild.build(case, random.Random("uuid:0"))
+    m = bu.module
+    nopsz = 4 if isa == "arm64" else 1
+    seen = []
+
+    def arg(ctx):
+        seen.append((ctx.block, ctx.offset))
+        return c["base"] + ctx.offset
+    consts = [7 + k for k in range(c["nconst"])]
+    patch = CallPatch(bu.symbols["g"], consts + [arg])
+    functions = gtirb_functions.Function.build_functions(m)
+    ctx = RewritingContext(m, functions)
+    ctx.insert_at(bu.blocks[0], 0, patch)
+    ctx.insert_at(bu.blocks[0], nopsz, patch)
+    ctx.apply()
+    if seen != [(bu.blocks[0], 0), (bu.blocks[0], nopsz)]:
+        viol.append({"key": "context:callable-context-differs",
+                     "msg": f"{[(b is bu.blocks[0], o) for b, o in seen]}"})
+    f0 = bu.symbols["f"].referent
+    f1 = bu.symbols["f1"].referent
+    bi = f0.byte_interval
+    lo, hi = f0.offset, f1.offset
+    if f1.byte_interval is not bi or not (lo < hi):
+        return {"sig": None, "violations": viol, "counters": ctr,
+                "inconclusive": "region-not-contiguous"}
+    data = bytes(bi.contents)[lo:hi]
+    exprs = {o - lo: e.symbol.name
+             for o, e in bi.symbolic_expressions.items() if lo <= o < hi}
+    rng = random.Random(c["seed"])
+    bits = 64
+    names = [c16.canon(abi_name, r) for r in c16.ALLREGS[abi_name]]
+    if isa == "x64":
+        names += ["rbp"]
+    init = {n: rng.getrandbits(bits) for n in names}
+    f_0 = rng.getrandbits(12)
+    sp0 = 0x7FFF0000
+    mc = emu.Machine(isa, init, sp0, f_0, exprs=exprs,
+                     red_zone=c16.RED.get(abi_name, 0), leaf=True)
+    mc.sp0 = sp0
+    md = emu.irview.decoder(isa)
+    regs = DEFAULT[abi_name][0]
+    off = 0
+    want = [c["base"] + 0, c["base"] + nopsz]
+    try:
+        mc.phase = "prologue"
+        for ins in md.disasm(data, 0):
+            mc.ninstr += 1
+            ncalls = len(mc.calls)
+            getattr(mc, "step_" + ("x86" if isa == "x64" else isa))(ins, off)
+            off += ins.size
+            if len(mc.calls) > ncalls:
+                k = len(mc.calls) - 1
+                ev = mc.calls[-1]
+                ctr["context_call_sites"] += 1
+                if ev["target"] != "g":
+                    viol.append({"key": "context:wrong-callee",
+                                 "msg": str(ev["target"])})
+                reg = c16.canon(abi_name, regs[len(consts)].lower())
+                got = mc.regs.get(reg)
+                if k < 2 and got != want[k]:
+                    viol.append({
+                        "key": "context:callable-argument-differs:site"
+                               f"{k + 1}",
+                        "msg": f"{got!r} != {want[k]:#x}"})
+                for j, v in enumerate(consts):
+                    r_ = c16.canon(abi_name, regs[j].lower())
+                    if mc.regs.get(r_) != v:
+                        viol.append({"key": "context:constant-argument-"
+                                            "differs", "msg": f"arg {j}"})
+                if ev["sp"] % 16:
+                    viol.append({"key": "context:sp-misaligned-at-call",
+                                 "msg": hex(ev["sp"])})
+                # the callee: clobbers what it may
+                for n in c16.CALLER[abi_name]:
+                    mc.regs[c16.canon(abi_name, n)] = rng.getrandbits(bits)
+                mc.flags = rng.getrandbits(12) | 0x8000
+        if off != len(data):
+            raise emu.Unsupported("undecodable tail")
+    except emu.Unsupported as e:
+        return {"sig": None, "violations": viol, "counters": ctr,
+                "inconclusive": f"unsupported-instruction:{e}"[:200]}
+    ctr["instructions_executed"] = mc.ninstr
+    if len(mc.calls) != 2:
+        viol.append({"key": "context:number-of-calls",
+                     "msg": str(len(mc.calls))})
+    if mc.sp != sp0:
+        viol.append({"key": "context:sp-not-restored",
+                     "msg": f"{mc.sp - sp0:+d}"})
+    for n in names:
+        if mc.regs[n] != init[n]:
+            viol.append({"key": "context:register-not-restored", "msg": n})
+            break
+    if mc.flags != f_0:
+        viol.append({"key": "context:flags-not-restored", "msg": ""})
+    for key, msg in mc.problems:
+        viol.append({"key": "context:stack:" + key, "msg": msg})
+    return {"sig": f"ctx:{abi_name}:{c['nconst']}", "violations": viol,
+            "counters": ctr}
+
+
 def run_case(c):
+    if c.get("kind") == "ctx":
+        return run_ctx(c)
     from gtirb_rewriting.abi import ABI, CallingConventionDesc
     from gtirb_rewriting.assembler import Assembler
     from gtirb_rewriting.patch import InsertionContext
